@@ -43,7 +43,7 @@ def aresize [Inhabited α] (a : AState α) (h sz : Nat) : AState α :=
 inductive AOp (α : Type) where
   | build (h sz : Nat) (t : α) | share (h g : Nat) | valueCopy (h g : Nat) | destroy (h : Nat)
   | allocate (h sz : Nat) | resize (h sz : Nat) | reserve (h sz : Nat) | pushBack (h : Nat) (v : α)
-  | write (h i : Nat) (v : α) | copy (h g : Nat)
+  | write (h i : Nat) (v : α) | copy (h g : Nat) | pushBackSelf (h i : Nat)
 
 def astep [Inhabited α] (a : AState α) : AOp α → AState α
   | .build h sz t => fresh a h (List.replicate sz (some t))
@@ -67,6 +67,14 @@ def astep [Inhabited α] (a : AState α) : AOp α → AState α
     match grpOf a h with
     | some g => if i < (a.vals g).length then setVal a g ((a.vals g).set i (some v)) else a
     | none => a
+  | .pushBackSelf h i =>
+    let old := value a h
+    if i < old.length then
+      let a := aresize a h (old.length + 1)
+      match grpOf a h with
+      | some g => setVal a g ((a.vals g).set old.length (old.getD i none))
+      | none => a
+    else a
   | .copy h g =>
     if grpOf a h = grpOf a g then a else
     let v := value a g
@@ -80,5 +88,140 @@ def matchesB [BEq α] : List α → List (Option α) → Bool
   | [], [] => true
   | x :: xs, y :: ys => (match y with | none => true | some v => x == v) && matchesB xs ys
   | _, _ => false
+
+
+/-! ## The deterministic value-semantics machine (the target of the simulation theorem)
+
+No reference counts, no liveness, no release, no faults: a handle is `(group, logical size)`, a group denotes a list of
+cells, groups are never reclaimed (garbage-collected semantics), aliases are handles with the same group.  Cells beyond
+the logical size are *retained storage*: they reappear when the sole owner grows again within the retained length; the
+property leaves them unspecified (the correspondence's verdict ignores them, see the `none` cells of `AState` above),
+the machine records them so that the refinement `abs (run Model.init ops) = vrun vinit ops` is an equality. -/
+
+structure VHandle where
+  grp  : Option Nat
+  size : Nat
+deriving DecidableEq, Repr
+
+structure VState (α : Type) where
+  n     : Nat
+  hs    : Nat → VHandle
+  cells : Nat → List α
+  next  : Nat
+
+def vinit (α : Type) (n : Nat) : VState α := { n := n, hs := fun _ => ⟨none, 0⟩, cells := fun _ => [], next := 0 }
+
+def vupd {β : Type} (f : Nat → β) (i : Nat) (v : β) : Nat → β := fun j => if j = i then v else f j
+
+def vcount (p : Nat → Bool) : Nat → Nat
+  | 0 => 0
+  | k + 1 => vcount p k + (if p k then 1 else 0)
+
+/-- number of handles in group `g` -/
+def vmembers (a : VState α) (g : Nat) : Nat := vcount (fun h => (a.hs h).grp == some g) a.n
+
+/-- what handle `h` denotes -/
+def vvalue (a : VState α) (h : Nat) : List α :=
+  match (a.hs h).grp with
+  | none => []
+  | some g => (a.cells g).take (a.hs h).size
+
+def vdrop (a : VState α) (h : Nat) : VState α := { a with hs := vupd a.hs h ⟨none, 0⟩ }
+
+def vfresh (a : VState α) (h : Nat) (l : List α) (sz : Nat) : VState α :=
+  { a with hs := vupd a.hs h ⟨some a.next, sz⟩, cells := vupd a.cells a.next l, next := a.next + 1 }
+
+def vsetSize (a : VState α) (h sz : Nat) : VState α := { a with hs := vupd a.hs h { (a.hs h) with size := sz } }
+
+/-- the handle is the only member of its group and the retained storage has room for `sz` cells -/
+def vsoleWithRoom (a : VState α) (h sz : Nat) : Bool :=
+  match (a.hs h).grp with
+  | none => false
+  | some g => decide (vmembers a g = 1 ∧ (a.cells g).length ≥ sz)
+
+def vbuild (a : VState α) (h sz : Nat) (t : α) : VState α :=
+  let a := vdrop a h
+  if sz ≠ 0 then vfresh a h (List.replicate sz t) sz else a
+
+def vshare (a : VState α) (h g : Nat) : VState α :=
+  if h = g then a else
+  let a := vdrop a h
+  { a with hs := vupd a.hs h (a.hs g) }
+
+def vvalueCopy (a : VState α) (h g : Nat) : VState α :=
+  if h = g then a else
+  let a := vdrop a h
+  if (a.hs g).size ≠ 0 then vfresh a h (vvalue a g) (a.hs g).size else a
+
+def vallocate [Inhabited α] (a : VState α) (h sz : Nat) : VState α :=
+  if vsoleWithRoom a h sz then vsetSize a h sz else
+  let a := vdrop a h
+  if sz > 0 then vfresh a h (List.replicate sz default) sz else a
+
+def vresize [Inhabited α] (a : VState α) (h sz : Nat) : VState α :=
+  if vsoleWithRoom a h sz then vsetSize a h sz else
+  if sz > 0 then
+    let k := if (a.hs h).size < sz then (a.hs h).size else sz
+    vfresh (vdrop a h) h ((vvalue a h).take k ++ List.replicate (sz - k) default) sz
+  else vdrop a h
+
+def vsetCells (a : VState α) (g : Nat) (l : List α) : VState α := { a with cells := vupd a.cells g l }
+
+def vwrite (a : VState α) (h i : Nat) (v : α) : VState α :=
+  if i < (a.hs h).size then
+    match (a.hs h).grp with
+    | some g => vsetCells a g ((a.cells g).set i v)
+    | none => a
+  else a
+
+def vpushBack [Inhabited α] (a : VState α) (h : Nat) (v : α) : VState α :=
+  let a := vresize a h ((a.hs h).size + 1)
+  vwrite a h ((a.hs h).size - 1) v
+
+/-- appending the handle's own cell `i` appends its value -/
+def vpushBackSelf [Inhabited α] (a : VState α) (h i : Nat) : VState α :=
+  if i < (a.hs h).size then
+    match (vvalue a h)[i]? with
+    | some v => vpushBack a h v
+    | none => a
+  else a
+
+def vcopy [Inhabited α] (a : VState α) (h g : Nat) : VState α :=
+  if (a.hs g).grp = (a.hs h).grp then a else
+  let a := vresize a h (a.hs g).size
+  let l := (vvalue a g).take (a.hs h).size
+  match (a.hs h).grp with
+  | some gh => if l.isEmpty then a else vsetCells a gh (l ++ (a.cells gh).drop l.length)
+  | none => a
+
+inductive VOp (α : Type) where
+  | build (h sz : Nat) (t : α) | share (h g : Nat) | valueCopy (h g : Nat) | drop (h : Nat)
+  | allocate (h sz : Nat) | resize (h sz : Nat) | reserve (h sz : Nat) | pushBack (h : Nat) (v : α)
+  | pushBackSelf (h i : Nat)
+  | write (h i : Nat) (v : α) | copy (h g : Nat)
+
+def VOp.handles : VOp α → List Nat
+  | .build h _ _ => [h] | .share h g => [h, g] | .valueCopy h g => [h, g] | .drop h => [h]
+  | .allocate h _ => [h] | .resize h _ => [h] | .reserve h _ => [h] | .pushBack h _ => [h] | .pushBackSelf h _ => [h] | .write h _ _ => [h]
+  | .copy h g => [h, g]
+
+def vstepCore [Inhabited α] (a : VState α) : VOp α → VState α
+  | .build h sz t => vbuild a h sz t
+  | .share h g => vshare a h g
+  | .valueCopy h g => vvalueCopy a h g
+  | .drop h => vdrop a h
+  | .allocate h sz => vallocate a h sz
+  | .resize h sz => vresize a h sz
+  | .reserve h sz => vresize (vresize a h sz) h 0
+  | .pushBack h v => vpushBack a h v
+  | .pushBackSelf h i => vpushBackSelf a h i
+  | .write h i v => vwrite a h i v
+  | .copy h g => vcopy a h g
+
+/-- operations naming a handle outside `[0, n)` do nothing -/
+def vstep [Inhabited α] (a : VState α) (op : VOp α) : VState α :=
+  if op.handles.any (fun h => decide (a.n ≤ h)) then a else vstepCore a op
+
+def vrun [Inhabited α] (a : VState α) (ops : List (VOp α)) : VState α := ops.foldl vstep a
 
 end Givaro.Spec.Array0Spec
